@@ -333,7 +333,7 @@ def threads(ctx, scs, impl, nthreads):
 
 def run(ctx):
     scs, impl = machine_prop.run(ctx, [('mixed', 100, 1500, {}), ('trees', 60, 1000, {}), ('timers', 60, 1000, {'till_p': 0.8})],
-                                 ['C15', 'C07'])
+                                 ['C15', 'till'])
     cases = run_programs(ctx, ctx.n(150, 3000))
     handler_correspondence(ctx, cases)
     threads(ctx, scs[:ctx.n(60, 300)], impl[:ctx.n(60, 300)], ctx.n(8, 16))
